@@ -11,6 +11,9 @@ use std::time::{Duration, Instant};
 /// exit code of a shard whose in-process search ignored the stop flag
 pub const HANG_EXIT_CODE: i32 = 86;
 
+/// set by `vcheck replay`: (saved stdout fd, property id, replay path)
+pub static REPLAY_NOTE: std::sync::Mutex<Option<(i32, String, String)>> = std::sync::Mutex::new(None);
+
 pub fn new_table() -> TranspositionTable {
     TranspositionTable::default()
 }
@@ -63,7 +66,15 @@ pub fn run_search(g: &Game, table: &mut TranspositionTable, depth: Option<u8>, w
                     let give_up = Instant::now() + Duration::from_secs(25);
                     while !done.load(Relaxed) {
                         if Instant::now() >= give_up {
-                            eprintln!("vcheck: search ignored the stop flag for 25 s; shard gives up (exit {})", HANG_EXIT_CODE);
+                            eprintln!("vcheck: search ignored the stop flag for 25 s; giving up");
+                            // when replaying a saved case, say so in the usual form on the real stdout
+                            if let Some((fd, id, path)) = REPLAY_NOTE.lock().unwrap().clone() {
+                                let msg = format!("  failure [hang] the search ignored the stop flag for 25 s\nVIOLATION property={} replay={}\n", id, path);
+                                unsafe {
+                                    libc::write(fd, msg.as_ptr() as *const libc::c_void, msg.len());
+                                }
+                                std::process::exit(1);
+                            }
                             std::process::exit(HANG_EXIT_CODE);
                         }
                         std::thread::sleep(Duration::from_millis(5));
